@@ -2,12 +2,15 @@
     This file contains only the pinned statements; the model is Derive/DeriveModel.v, the proofs and
     the specification vocabulary ([shape_spec], [guar_nodes], [wf_nodes], [frame_nodes], [field_at],
     [names_disjoint]) are in Derive/DeriveProofs.v. *)
-From ClapModel Require Import Base.Bytes Base.Utf8.
+From ClapModel Require Import Base.Bytes Base.Utf8 Base.Machine.
 From ClapModel Require Import Parse.Cmd Parse.Build Parse.Valid Parse.Matcher Parse.Errors Parse.Parser.
 From ClapModel Require Import Value.PossibleValues.
 From ClapModel Require Import Derive.DeriveModel Derive.DeriveProofs.
-From ClapModel Require Import ParseProofs.Actions ParseProofs.ActionsLoop ParseProofs.Unparse ParseProofs.UnparseTop ParseProofs.UnparseTree.
+From ClapModel Require Import ParseProofs.Actions ParseProofs.ActionsLoop ParseProofs.Unparse ParseProofs.UnparseTop ParseProofs.UnparseTrail ParseProofs.UnparseTree.
 From ClapModel Require Import Derive.DeriveCmd Derive.DeriveArgs Derive.DeriveParse Derive.DeriveUpdate Derive.DeriveAccept Derive.DeriveParseEx.
+From ClapModel Require Import Parse.Validator ParseProofs.Relations ParseProofs.ValidateTotal Derive.DerivePost Derive.DerivePostEx.
+From ClapModel Require Import ParseProofs.Dispatch Derive.LoopInv Derive.DeriveFlat Derive.DeriveTotal Derive.DeriveTotalEx.
+From ClapModel Require Import ParseProofs.KindSound Derive.DeriveUpdateLine Derive.DeriveUpdateLineEx Derive.DeriveDec Derive.DeriveKeys Derive.DerivePos.
 From Coq Require Import ZArith List.
 Import ListNotations.
 Open Scope N_scope.
@@ -307,3 +310,379 @@ Proof.
   split; [exact ParseEx.ex_valid|exact ParseEx.ex_print].
 Qed.
 Print Assumptions C15_print_cmdline_accepted_nonvacuous.
+
+(** * Round 3: the phases after the token loop (Derive/DerivePost.v) -- full acceptance of the printed line *)
+
+(** THE DEFAULTS PHASE SUCCEEDS (any command): if every argument either has an entry already or carries a storable default
+    ([default_passes]: no conditional rule; no default, or an unsplit default that passes the argument's own value parser on a
+    storing action), [add_defaults] answers Ok.  (Existence counterpart of C06's [C06_defaults_frame].) *)
+Theorem C15_defaults_phase_succeeds : forall c st,
+  (forall a, In a (c_args c) -> ~ In (a_id a) (groups_for_arg c (a_id a))) ->
+  (forall a, In a (c_args c) -> mt_contains (mt st) (a_id a) = true \/ default_passes a) ->
+  wf_m (mt st) -> mt_pending (mt st) = None ->
+  exists st', add_defaults c st = ROk st' /\ wf_m (mt st') /\ mt_pending (mt st') = None.
+Proof. exact add_defaults_ok. Qed.
+Print Assumptions C15_defaults_phase_succeeds.
+
+(** VALIDATOR COMPLETENESS FOR A COMMAND WITHOUT RELATIONS (any command of the class [norel]: no requires / conditional
+    requirement / conflict / override / exclusive argument, groups only collect): every matcher with unique keys and known
+    ids in which each [required] argument is explicitly present is accepted.  Through C03's completeness on [static_only]. *)
+Theorem C15_validate_complete_norel : forall c mt,
+  assert_app c = true -> norel c = true -> Relations.fm_wf mt -> keys_ok c (mt_args mt) ->
+  (forall p, In p (positionals c) -> a_index p <> None) ->
+  is_set s_arg_required_else_help c = false -> is_set s_sub_required c = false ->
+  (forall a, In a (c_args c) -> a_required a = true -> present mt (a_id a)) ->
+  validate c mt = VOk.
+Proof. exact norel_validate. Qed.
+Print Assumptions C15_validate_complete_norel.
+
+(** THE GENERATED COMMAND ACCEPTS THE PRINTED LINE, ALL PHASES.  Beyond [C15_print_cmdline_accepted_partial]: the environment
+    phase is the identity, the defaults phase stores the default of every unmentioned field ([defaults_pass]: it passes the
+    built argument's value parser), the validator accepts ([required_mentioned]: a field whose generated argument is
+    [required] is written by the printer; the generated command declares nothing else). *)
+Theorem C15_print_accepted : forall d bin vs argv,
+  opt_struct d -> printable (d_nodes d) vs -> accepted_nodes d bin (d_nodes d) vs ->
+  defaults_pass (d_nodes d) vs -> required_mentioned (d_nodes d) vs ->
+  valid (with_bin (derive_cmd d) bin) = true -> print d vs = Some argv ->
+  exists m, parse_top (derive_cmd d) (bin :: argv) = OOk m.
+Proof. exact print_accepted. Qed.
+Print Assumptions C15_print_accepted.
+
+(** ROUND TRIP AS AN EQUALITY: [parse (print v) = Ok v] through the real parser model, for every struct of option fields
+    ([opt_struct], [takes_ok]) and every value of the matches-level class ([ok_nodes]) whose printed groups pass the generated
+    arguments' own count / value-parser checks ([accepted_nodes]) and that mentions the required fields.  Neither the
+    defaults ([defaults_pass] follows from [ok_nodes]) nor the enum check of the derived parser is a hypothesis. *)
+Theorem C15_roundtrip_parse : forall d bin vs argv,
+  opt_struct d -> Forall takes_ok (fields_of (d_nodes d)) -> ok_nodes (d_nodes d) vs ->
+  accepted_nodes d bin (d_nodes d) vs -> required_mentioned (d_nodes d) vs ->
+  valid (with_bin (derive_cmd d) bin) = true -> print d vs = Some argv ->
+  derived_parse d (bin :: argv) = PValue vs.
+Proof. exact roundtrip_parse. Qed.
+Print Assumptions C15_roundtrip_parse.
+
+(** ... and with the class on the derive input alone where requiredness is concerned: no explicit [required = true]
+    (the requiredness the macro infers belongs to plain fields without default, which the printer always writes). *)
+Theorem C15_roundtrip_parse_inferred_required : forall d bin vs argv,
+  opt_struct d -> Forall takes_ok (fields_of (d_nodes d)) -> Forall (fun f => f_required f <> Some true) (fields_of (d_nodes d)) ->
+  ok_nodes (d_nodes d) vs -> accepted_nodes d bin (d_nodes d) vs ->
+  valid (with_bin (derive_cmd d) bin) = true -> print d vs = Some argv ->
+  derived_parse d (bin :: argv) = PValue vs.
+Proof. exact roundtrip_parse_inferred. Qed.
+Print Assumptions C15_roundtrip_parse_inferred_required.
+
+(** Non-vacuity: [{ n: "a", vv: false, c: 0, oo: None, k: "z" }] ([n] required, [k] with [default_value]) prints to
+    [--nn=a --kk=z]; all hypotheses hold; the defaults phase stores "false" and "0"; dropping [--nn=a] is rejected. *)
+Theorem C15_roundtrip_parse_full_nonvacuous :
+  opt_struct PostEx.d /\ Forall takes_ok (fields_of (d_nodes PostEx.d)) /\ ok_nodes (d_nodes PostEx.d) PostEx.v
+  /\ accepted_nodes PostEx.d b_prog (d_nodes PostEx.d) PostEx.v /\ required_mentioned (d_nodes PostEx.d) PostEx.v
+  /\ valid (with_bin (derive_cmd PostEx.d) b_prog) = true /\ print PostEx.d PostEx.v = Some PostEx.argv
+  /\ field_required PostEx.fn = true /\ bf_default PostEx.fl = [s_false] /\ bf_default PostEx.fc = [[48]]
+  /\ derived_parse PostEx.d [b_prog; [45;45;107;107;61;122]] = PError EMissingRequiredArgument.
+Proof.
+  split; [exact PostEx.ex_struct|]. split; [exact PostEx.ex_takes|]. split; [exact PostEx.ex_ok|].
+  split; [exact PostEx.ex_accepted|]. split; [exact PostEx.ex_required_mentioned|]. split; [exact PostEx.ex_valid|].
+  split; [exact PostEx.ex_print|]. destruct PostEx.ex_required as (H1 & H2 & H3).
+  split; [exact H1|]. split; [exact H2|]. split; [exact H3|exact PostEx.ex_missing_required].
+Qed.
+Print Assumptions C15_roundtrip_parse_full_nonvacuous.
+
+(** * Round 3: ALL argv (Derive/LoopInv.v, DeriveTotal.v) -- extraction cannot fail after a successful command parse *)
+
+(** A WALK OF [get_matches_with] PARAMETRIC IN THE STATE PREDICATE (any command without [ignore_errors]): a predicate that
+    depends on the argument entries only and is preserved by one successful [react_core] on an argument of the level
+    (non-command-line sources: with at least one raw value) holds of the state of every successful level. *)
+Theorem C15_level_invariant : forall c (Q : Parser.ps -> Prop),
+  (forall st st', mt_args (mt st') = mt_args (mt st) -> Q st -> Q st') ->
+  (forall idn s a raw ti st, In a (c_args c) -> (s <> SCmdLine -> raw <> []) -> Q st ->
+     holds (fun x => Q (fst x)) Tr (react_core c idn s a raw ti st)) ->
+  is_set s_ignore_errors c = false ->
+  forall fuel toks st0, Q st0 -> holds Q Tr (get_matches_with fuel c toks st0).
+Proof. exact gmw_Q. Qed.
+Print Assumptions C15_level_invariant.
+
+(** STORED VALUE GROUPS ARE NON-EMPTY (any command that passed [assert_app], no [ignore_errors], ANY token list): after a
+    successful level the keys are unique and every argument of [full_groups] (flag / counter actions; Set / Append with a
+    value range starting at 1) holds at least one group, none of them empty. *)
+Theorem C15_stored_groups_nonempty : forall c, assert_app c = true -> is_set s_ignore_errors c = false ->
+  forall fuel toks st, get_matches_with fuel c toks ps_new = ROk st ->
+  wf_m (mt st) /\ forall a m, In a (c_args c) -> full_groups a -> fm_get (a_id a) (mt_args (mt st)) = Some m ->
+    m_raw m <> [] /\ Forall (fun g : list bytes => g <> []) (m_raw m).
+Proof. exact gmw_nonempty. Qed.
+Print Assumptions C15_stored_groups_nonempty.
+
+(** EXTRACTION CANNOT FAIL AFTER A SUCCESSFUL COMMAND PARSE -- for ALL argv, every struct of argument fields (options and
+    positionals, any attributes) that passes clap's assertions and is [guarded]: no unit field, and every plain field [T]
+    is [required] or has a default and its argument cannot be stored without a value.  ([C15_extract_after_parse_needs_
+    required_refuted] is the witness outside the class.)  Uses C04 (typed invariant), C03 (soundness of the validator), C06
+    (precedence: a default gives an entry), [C15_stored_groups_nonempty] and [C15_extract_total]. *)
+Theorem C15_extract_total_argv : forall d argv m,
+  fields_only (d_nodes d) = true -> Forall guarded (fields_of (d_nodes d)) ->
+  valid (with_bin (derive_cmd d) (hd [] argv)) = true ->
+  parse_top (derive_cmd d) argv = OOk m -> enum_ok_nodes (d_nodes d) m = true ->
+  exists vs, extract d m = XOk vs.
+Proof. exact extract_total_argv. Qed.
+Print Assumptions C15_extract_total_argv.
+
+(** THE FIRST SENTENCE OF THE PROPERTY AS AN EQUIVALENCE, ALL ARGV: the derived parser returns a value exactly when the
+    generated command's parse (with the enum value check) succeeds. *)
+Theorem C15_parse_succeeds_iff_command : forall d argv,
+  fields_only (d_nodes d) = true -> Forall guarded (fields_of (d_nodes d)) ->
+  valid (with_bin (derive_cmd d) (hd [] argv)) = true ->
+  ((exists vs, derived_parse d argv = PValue vs) <-> (exists m, cmd_parse (derive_cmd d) (d_nodes d) argv = OOk m)).
+Proof. exact parse_iff_command. Qed.
+Print Assumptions C15_parse_succeeds_iff_command.
+
+(** Non-vacuity: the struct of [C15_roundtrip_parse_full_nonvacuous] on [prog --kk z --nn a -cc --vv] (not a printed line)
+    and a struct with positional fields on [prog 7 a b]: the class holds, the command accepts; and [required = false] on a
+    plain field is outside the class. *)
+Theorem C15_extract_total_argv_nonvacuous :
+  Forall guarded (fields_of (d_nodes PostEx.d)) /\ valid (with_bin (derive_cmd PostEx.d) (hd [] TotalEx.argv)) = true
+  /\ (exists m, cmd_parse (derive_cmd PostEx.d) (d_nodes PostEx.d) TotalEx.argv = OOk m)
+  /\ derived_parse PostEx.d TotalEx.argv =
+       PValue [DOne (SvStr [97]); DOne (SvBool true); DOne (SvInt 2%Z); DOpt None; DOne (SvStr [122])]
+  /\ Forall guarded (fields_of (d_nodes TotalEx.dp)) /\ valid (with_bin (derive_cmd TotalEx.dp) (hd [] TotalEx.argvp)) = true
+  /\ derived_parse TotalEx.dp TotalEx.argvp = PValue [DOne (SvInt 7%Z); DVec [SvStr [97]; SvStr [98]]]
+  /\ ~ Forall guarded (fields_of (d_nodes NotRequiredEx.d)).
+Proof.
+  split; [exact TotalEx.ex_guarded|]. split; [exact TotalEx.ex_valid|]. split; [exact TotalEx.ex_command_accepts|].
+  split; [exact TotalEx.ex_value|]. split; [exact TotalEx.exp_guarded|]. split; [exact TotalEx.exp_valid|].
+  split; [exact TotalEx.exp_value|exact TotalEx.not_guarded].
+Qed.
+Print Assumptions C15_extract_total_argv_nonvacuous.
+
+(** * Round 3: update for ALL argv, "named" = C10's [occurs] (Derive/DeriveUpdateLine.v) *)
+
+(** UPDATE CHANGES ONLY THE FIELDS NAMED ON THE COMMAND LINE -- any line.  For every struct of argument fields whose update
+    command passes clap's assertions, every token list and every field whose argument has no default: if no token of the
+    line names the field's argument (C10's [occurs]: the token's long name / inferred prefix / a character of its short
+    cluster selects the argument in the key map -- lexing and lookup only; a positional counts as named by any token), a
+    successful [try_update_from] leaves the field as it was.  Through C10's invariant [K] ([accepted_faithful]) and C06's
+    [precedence].  (For default-bearing fields the statement is false: [C15_update_frame_argv_refuted].) *)
+Theorem C15_update_unoccurring_untouched : forall d bin toks vs vs' f,
+  fields_only (d_nodes d) = true -> In f (fields_of (d_nodes d)) -> bf_default f = [] ->
+  valid (with_bin (derive_cmd_for_update d) bin) = true ->
+  (forall a, In a (c_args (builtu d bin)) -> a_id a = f_id f -> ~ occurs (builtu d bin) toks a) ->
+  derived_update d vs (bin :: toks) = PValue vs' ->
+  field_at (d_nodes d) vs' (f_id f) = field_at (d_nodes d) vs (f_id f).
+Proof. exact update_unoccurring_untouched. Qed.
+Print Assumptions C15_update_unoccurring_untouched.
+
+(** Non-vacuity: [{vv: false, oo: Some(7), x: ["a"], c: 3}] updated from [--vv -x z] (a separated value, not the printer's
+    spelling): no token names [oo]; the update succeeds and [oo] keeps [Some(7)]. *)
+Theorem C15_update_unoccurring_nonvacuous :
+  (forall a, In a (c_args (builtu ParseEx.d b_prog)) -> a_id a = f_id ParseEx.fo ->
+     ~ occurs (builtu ParseEx.d b_prog) UpdateLineEx.toks a)
+  /\ fields_only (d_nodes ParseEx.d) = true /\ In ParseEx.fo (fields_of (d_nodes ParseEx.d)) /\ bf_default ParseEx.fo = []
+  /\ valid (with_bin (derive_cmd_for_update ParseEx.d) b_prog) = true
+  /\ derived_update ParseEx.d UpdateEx.v0 (b_prog :: UpdateLineEx.toks) = PValue UpdateLineEx.v1
+  /\ field_at (d_nodes ParseEx.d) UpdateLineEx.v1 (f_id ParseEx.fo) = Some (DOpt (Some (SvInt 7%Z))).
+Proof. split; [exact UpdateLineEx.ex_unnamed|exact UpdateLineEx.ex_update_line]. Qed.
+Print Assumptions C15_update_unoccurring_nonvacuous.
+
+(** * Round 3: the class of the round trip stated without the parser's functions *)
+
+(** ROUND TRIP AS AN EQUALITY, class on the derive input and the value only: [ok_nodes] (attribute combinations of the
+    matches-level round trip, scalars that print and parse back), [fits_all] (arithmetic: the value range of the generated
+    argument admits the length of every printed group; a counter's range is empty), required fields mentioned.
+    [accepted_nodes] is DERIVED: a scalar that parses back lies in the language of the field's value parser
+    ([scalar_accepts]); [range_admits] is what [verify_num_args] computes. *)
+Theorem C15_roundtrip_parse_class : forall d bin vs argv,
+  opt_struct d -> Forall takes_ok (fields_of (d_nodes d)) -> ok_nodes (d_nodes d) vs ->
+  fits_all (d_nodes d) vs -> required_mentioned (d_nodes d) vs ->
+  valid (with_bin (derive_cmd d) bin) = true -> print d vs = Some argv ->
+  derived_parse d (bin :: argv) = PValue vs.
+Proof. exact roundtrip_parse_class. Qed.
+Print Assumptions C15_roundtrip_parse_class.
+
+(** Non-vacuity: [fits_all] holds for both example values; it is needed: [Option<Vec<String>> = Some([])] prints to a bare
+    [--xx] that the command rejects (InvalidValue), and does not satisfy [fits]. *)
+Theorem C15_roundtrip_parse_class_nonvacuous :
+  fits_all (d_nodes PostEx.d) PostEx.v /\ fits_all (d_nodes ParseEx.d) ParseEx.v
+  /\ Forall takes_ok (fields_of (d_nodes ParseEx.d)) /\ required_mentioned (d_nodes ParseEx.d) ParseEx.v
+  /\ print FitsEx.dv [DOptVec (Some [])] = Some [[45;45;120;120]]
+  /\ derived_parse FitsEx.dv [b_prog; [45;45;120;120]] = PError EInvalidValue
+  /\ ~ fits FitsEx.fov (DOptVec (Some [])).
+Proof.
+  split; [exact PostEx.ex_fits|]. destruct PostEx.ex_fits2 as (H1 & H2 & H3). split; [exact H1|]. split; [exact H2|].
+  split; [exact H3|exact FitsEx.ex_unfit].
+Qed.
+Print Assumptions C15_roundtrip_parse_class_nonvacuous.
+
+(** * Round 3: flattened structs (Derive/DeriveFlat.v) -- the generated command in closed form, the first sentence for all argv *)
+
+(** [gen_augment] over fields and flatten nodes (any nesting, optional or not; no subcommand field) in closed form: the
+    arguments of the leaf fields in declaration order, the struct groups, nothing else. *)
+Theorem C15_generated_command_flat : forall ovr d, flat_nodes (d_nodes d) = true ->
+  augment ovr (d_gid d) (d_nodes d) (cmd_new (d_name d)) =
+  root_cmd (d_name d) (map (field_arg ovr) (leaves (d_nodes d))) (struct_group (d_gid d) (d_nodes d) :: sgroups (d_nodes d)) None.
+Proof. exact derive_cmd_flat. Qed.
+Print Assumptions C15_generated_command_flat.
+
+(** EXTRACTION CANNOT FAIL AFTER A SUCCESSFUL COMMAND PARSE, ALL ARGV, structs of fields and flattened structs (optional
+    flattens included: their members are extracted only when the group is present, and are then guaranteed like any other).
+    The well-formedness of the derive input ([wf_nodes]: ids of arguments and groups distinct per level) is not a hypothesis:
+    it follows from clap's own assertions on the generated command ([valid_flat_wf]). *)
+Theorem C15_valid_flat_wf : forall d bin,
+  flat_nodes (d_nodes d) = true -> valid (with_bin (derive_cmd d) bin) = true -> wf_nodes (d_nodes d).
+Proof. exact valid_flat_wf. Qed.
+Print Assumptions C15_valid_flat_wf.
+
+Theorem C15_extract_total_argv_flat : forall d argv m,
+  flat_nodes (d_nodes d) = true -> Forall guarded (leaves (d_nodes d)) ->
+  valid (with_bin (derive_cmd d) (hd [] argv)) = true ->
+  parse_top (derive_cmd d) argv = OOk m -> enum_ok_nodes (d_nodes d) m = true ->
+  exists vs, extract d m = XOk vs.
+Proof. exact extract_total_argv_flat_valid. Qed.
+Print Assumptions C15_extract_total_argv_flat.
+
+Theorem C15_parse_succeeds_iff_command_flat : forall d argv,
+  flat_nodes (d_nodes d) = true -> Forall guarded (leaves (d_nodes d)) ->
+  valid (with_bin (derive_cmd d) (hd [] argv)) = true ->
+  ((exists vs, derived_parse d argv = PValue vs) <-> (exists m, cmd_parse (derive_cmd d) (d_nodes d) argv = OOk m)).
+Proof. exact parse_iff_command_flat_valid. Qed.
+Print Assumptions C15_parse_succeeds_iff_command_flat.
+
+(** Non-vacuity: [{ a: String, #[flatten] inner: { b: u8, c: bool }, #[flatten] opt: Option<{ e: Option<u8> }> }] on
+    [prog --bb 3 --aa x]. *)
+Theorem C15_extract_total_argv_flat_nonvacuous :
+  flat_nodes (d_nodes FlatEx.d) = true /\ wf_nodes (d_nodes FlatEx.d) /\ Forall guarded (leaves (d_nodes FlatEx.d))
+  /\ valid (with_bin (derive_cmd FlatEx.d) (hd [] FlatEx.argv)) = true
+  /\ derived_parse FlatEx.d FlatEx.argv =
+       PValue [DOne (SvStr [120]); DStruct [DOne (SvInt 3%Z); DOne (SvBool false)]; DOptStruct None].
+Proof.
+  split; [exact FlatEx.ex_flat|]. split; [exact FlatEx.ex_wf|]. split; [exact FlatEx.ex_guarded|].
+  split; [exact FlatEx.ex_valid|exact FlatEx.ex_value].
+Qed.
+Print Assumptions C15_extract_total_argv_flat_nonvacuous.
+
+(** ... and below flatten nodes: the same statement for structs with flattened structs (the update command in closed form) *)
+Theorem C15_update_unoccurring_untouched_flat : forall d bin toks vs vs' f,
+  flat_nodes (d_nodes d) = true -> In f (leaves (d_nodes d)) -> bf_default f = [] ->
+  valid (with_bin (derive_cmd_for_update d) bin) = true ->
+  (forall a, In a (c_args (builtu d bin)) -> a_id a = f_id f -> ~ occurs (builtu d bin) toks a) ->
+  derived_update d vs (bin :: toks) = PValue vs' ->
+  field_at (d_nodes d) vs' (f_id f) = field_at (d_nodes d) vs (f_id f).
+Proof. exact update_unoccurring_untouched_flat. Qed.
+Print Assumptions C15_update_unoccurring_untouched_flat.
+
+(** Non-vacuity: [{a: "x", inner: {b: 3, c: true}, opt: None}] updated from [--aa y]: [b] (inside the flattened struct) is
+    named by no token and keeps 3 (the flag [c] is reset, the optional flatten materialised: the recorded findings). *)
+Theorem C15_update_unoccurring_flat_nonvacuous :
+  (forall a, In a (c_args (builtu FlatEx.d b_prog)) -> a_id a = f_id FlatEx.fb -> ~ occurs (builtu FlatEx.d b_prog) UpdateFlatEx.toks a)
+  /\ flat_nodes (d_nodes FlatEx.d) = true /\ In FlatEx.fb (leaves (d_nodes FlatEx.d)) /\ bf_default FlatEx.fb = []
+  /\ valid (with_bin (derive_cmd_for_update FlatEx.d) b_prog) = true
+  /\ derived_update FlatEx.d UpdateFlatEx.v0 (b_prog :: UpdateFlatEx.toks) = PValue UpdateFlatEx.v1
+  /\ field_at (d_nodes FlatEx.d) UpdateFlatEx.v1 (f_id FlatEx.fb) = Some (DOne (SvInt 3%Z)).
+Proof. split; [exact UpdateFlatEx.ex_unnamed|exact UpdateFlatEx.ex_update_flat]. Qed.
+Print Assumptions C15_update_unoccurring_flat_nonvacuous.
+
+(** * Round 3: the scalar hypothesis of the round trip, all element types (Derive/DeriveDec.v) *)
+
+(** the decimal printer and [str::parse::<i64>] are inverse on the whole i64 range (induction on the digits; the fuel of
+    [n_to_dec] suffices: 40 digits) *)
+Theorem C15_decimal_roundtrip : forall z, in_i64 z = true ->
+  parse_i64 (z_to_dec z) = Some z /\ utf8_valid (z_to_dec z) = true.
+Proof. exact parse_i64_print. Qed.
+Print Assumptions C15_decimal_roundtrip.
+
+(** [srt] holds for every element type: bool, String, u8, i64 and (under distinct UTF-8 names) value enums -- the
+    completion of [C15_roundtrip_scalars_partial]; with it [ok_nodes] is a condition on attributes and enum names only. *)
+Theorem C15_roundtrip_scalars :
+  (forall ic x, srt TBool ic x) /\ (forall ic x, srt TStr ic x) /\ (forall ic x, srt TU8 ic x) /\ (forall ic x, srt TI64 ic x)
+  /\ (forall e ic x, names_disjoint ic e -> Forall (fun v => utf8_valid (pv_name (vv_pv v)) = true) e -> srt (TEnum e) ic x).
+Proof. exact scalars_roundtrip_all. Qed.
+Print Assumptions C15_roundtrip_scalars.
+
+(** * Round 3: the generated command with positionals and flattened structs lies in C02's class (Derive/DeriveKeys.v) *)
+
+(** THE BUILT ARGUMENTS, POSITIONALS NUMBERED IN DECLARATION ORDER: [c_args] of the built command is [Arg::_build] of the
+    generated argument of every leaf field ([annot]: the k-th positional field, through the flatten nesting, gets index k),
+    then the help flag. *)
+Theorem C15_generated_args_all : forall d bin, flat_nodes (d_nodes d) = true ->
+  c_args (built d bin) = map built_of (annot 1 (leaves (d_nodes d))) ++ [hb].
+Proof. exact builtk_args. Qed.
+Print Assumptions C15_generated_args_all.
+
+(** KEY MAP: a [--long] / [-s] of an option field resolves to the field's argument, index k to the k-th positional field. *)
+Theorem C15_generated_keys_all : forall d bin, flat_nodes (d_nodes d) = true ->
+  Forall opt_kind_ok (leaves (d_nodes d)) ->
+  NoDup (map f_kind (filter (fun f => negb (f_is_positional f)) (leaves (d_nodes d)))) ->
+  (forall f l, In f (leaves (d_nodes d)) -> f_kind f = KLong l -> get_long (built d bin) l = Some (bf f))
+  /\ (forall f s, In f (leaves (d_nodes d)) -> f_kind f = KShort s -> get_short (built d bin) s = Some (bf f))
+  /\ (forall k f, In (Some k, f) (annot 1 (leaves (d_nodes d))) -> get_pos (built d bin) k = Some (built_of (Some k, f))).
+Proof.
+  intros d bin H1 H2 H3. split; [intros f l; exact (lookup_long_all d bin H1 H2 H3 f l)|].
+  split; [intros f s0; exact (lookup_short_all d bin H1 H2 H3 f s0)|intros k f; exact (lookup_pos_all d bin H1 k f)].
+Qed.
+Print Assumptions C15_generated_keys_all.
+
+(** THE GENERATED COMMAND LIES IN C02'S CLASS, positionals and flattened structs included: conventional ([conv]: clap's
+    assertions hold, no argument with hyphen values / terminator / last / trailing-var-arg, the only multi-valued positional
+    is the last one), no overrides.  (Generalises [C15_generated_command_conv].) *)
+Theorem C15_generated_command_conv_all : forall d bin, flat_nodes (d_nodes d) = true ->
+  valid (with_bin (derive_cmd d) bin) = true ->
+  (forall k f, In (Some k, f) (annot 1 (leaves (d_nodes d))) -> a_is_multiple (bf f) = true ->
+     k = N.of_nat (length (filter f_is_positional (leaves (d_nodes d))))) ->
+  conv (built d bin) = true /\ no_overrides (built d bin) = true.
+Proof. intros d bin H1 H2 H3. split; [exact (built_conv_all d bin H1 H2 H3)|exact (built_no_overrides_all d bin H1)]. Qed.
+Print Assumptions C15_generated_command_conv_all.
+
+(** Non-vacuity: [{ vv: bool, p: u8 (positional), x: String (-x), #[flatten] { rest: Vec<String> (positional) } }]: the
+    hypotheses hold; index 1 is [p], index 2 is [rest] inside the flattened struct. *)
+Theorem C15_generated_keys_all_nonvacuous :
+  flat_nodes (d_nodes KeysEx.d) = true /\ Forall opt_kind_ok (leaves (d_nodes KeysEx.d))
+  /\ NoDup (map f_kind (filter (fun f => negb (f_is_positional f)) (leaves (d_nodes KeysEx.d))))
+  /\ valid (with_bin (derive_cmd KeysEx.d) b_prog) = true
+  /\ (forall k f, In (Some k, f) (annot 1 (leaves (d_nodes KeysEx.d))) -> a_is_multiple (bf f) = true ->
+        k = N.of_nat (length (filter f_is_positional (leaves (d_nodes KeysEx.d)))))
+  /\ annot 1 (leaves (d_nodes KeysEx.d)) = [(None, KeysEx.fl); (Some 1, KeysEx.fp); (None, KeysEx.fx); (Some 2, KeysEx.fr)].
+Proof.
+  split; [exact KeysEx.ex_flat|]. split; [exact KeysEx.ex_kinds|]. split; [exact KeysEx.ex_nodup|].
+  split; [exact KeysEx.ex_valid|]. split; [exact KeysEx.ex_multi_last|exact KeysEx.ex_annot].
+Qed.
+Print Assumptions C15_generated_keys_all_nonvacuous.
+
+(** * Round 3: the round trip for POSITIONAL fields (Derive/DerivePos.v) *)
+
+(** THE VALUES AFTER [--] FIND THE POSITIONAL FIELDS IN ORDER: for a struct of positional fields ([T], [Option<T>], a last
+    [Vec<T>]) and a value in which an absent positional is followed only by absent ones, the printed values form a
+    well-formed trail of C02 ([wf_trail]) and its occurrences are one per mentioned field, carrying that field's values,
+    attached to the field's built argument (index = declaration order). *)
+Theorem C15_positional_trail : forall d bin, fields_only (d_nodes d) = true -> Forall pos_field (fields_of (d_nodes d)) ->
+  (forall l1 f l2, fields_of (d_nodes d) = l1 ++ f :: l2 -> f_ty f = TyVec -> l2 = []) ->
+  forall l l1 pc vs, fields_of (d_nodes d) = l1 ++ l -> pc = 1 + N.of_nat (length l1) -> pos_prefix l vs ->
+  wf_trail (built d bin) pc (pos_vals l vs) = true /\ trail_occs (built d bin) pc (pos_vals l vs) = pos_occs pc l vs.
+Proof. exact trail_shape. Qed.
+Print Assumptions C15_positional_trail.
+
+(** ROUND TRIP AS AN EQUALITY FOR POSITIONAL FIELDS: [derived_parse d (bin :: print d v) = PValue v] through the real parser
+    model (the printer writes [-- v1 v2 ..]: C02's [ITrail]; acceptance of every occurrence, the post-loop phases, the
+    entries of the final matches, extraction and the enum check are all proved -- no hypothesis speaks about the parser).
+    Class: every field positional without explicit action / num_args / delimiter / default / required ([pos_field]: a
+    non-bool [T], [Option<T>] or [Vec<T>]), distinct ids, a [Vec<T>] only last; value: [ok_nodes], an absent positional
+    followed only by absent ones ([pos_prefix]), value counts within [usize]. *)
+Theorem C15_roundtrip_parse_positional : forall d bin vs argv,
+  fields_only (d_nodes d) = true -> Forall pos_field (fields_of (d_nodes d)) -> NoDup (map f_id (fields_of (d_nodes d))) ->
+  vec_last (fields_of (d_nodes d)) = true ->
+  ok_nodes (d_nodes d) vs -> pos_prefix (fields_of (d_nodes d)) vs -> pos_fits (fields_of (d_nodes d)) vs ->
+  valid (with_bin (derive_cmd d) bin) = true -> print d vs = Some argv ->
+  derived_parse d (bin :: argv) = PValue vs.
+Proof. exact roundtrip_parse_positional. Qed.
+Print Assumptions C15_roundtrip_parse_positional.
+
+(** Non-vacuity: [{ p: u8, q: Option<String>, rest: Vec<String> }], [{7, Some("x"), ["a","b"]}] = [-- 7 x a b]: all
+    hypotheses hold.  [pos_prefix] is needed: [{7, None, ["a"]}] prints to [-- 7 a] and parses to [{7, Some("a"), []}]. *)
+Theorem C15_roundtrip_parse_positional_nonvacuous :
+  Forall pos_field (fields_of (d_nodes PosEx.d)) /\ NoDup (map f_id (fields_of (d_nodes PosEx.d)))
+  /\ vec_last (fields_of (d_nodes PosEx.d)) = true /\ ok_nodes (d_nodes PosEx.d) PosEx.v
+  /\ pos_prefix (fields_of (d_nodes PosEx.d)) PosEx.v /\ pos_fits (fields_of (d_nodes PosEx.d)) PosEx.v
+  /\ valid (with_bin (derive_cmd PosEx.d) b_prog) = true /\ print PosEx.d PosEx.v = Some PosEx.argv
+  /\ print PosEx.d PosEx.v2 = Some [[45;45]; [55]; [97]]
+  /\ derived_parse PosEx.d [b_prog; [45;45]; [55]; [97]] = PValue [DOne (SvInt 7%Z); DOpt (Some (SvStr [97])); DVec []]
+  /\ ~ pos_prefix (fields_of (d_nodes PosEx.d)) PosEx.v2.
+Proof.
+  split; [exact PosEx.ex_class|]. split; [exact PosEx.ex_nodup|]. split; [reflexivity|]. split; [exact PosEx.ex_ok|].
+  split; [exact PosEx.ex_prefix|]. split; [exact PosEx.ex_fits|]. split; [exact PosEx.ex_valid|]. split; [exact PosEx.ex_print|].
+  exact PosEx.ex_prefix_needed.
+Qed.
+Print Assumptions C15_roundtrip_parse_positional_nonvacuous.
